@@ -330,8 +330,11 @@ def type_list(m, merge_explicit=False):
         if not (merge_explicit and sig in types):
             types.append(sig)
 
+    seen = set(types)
+
     def use(sig):
-        if sig not in types:
+        if sig not in seen:
+            seen.add(sig)
             types.append(sig)
 
     for k, rec in m.fields:
